@@ -60,7 +60,20 @@ func pick(rt *rapid.T, label string, from []string) string {
 // component draws a URL component: empty, plain, option-like, or an
 // option-like prefix glued to further text.
 func component(rt *rapid.T, label string, plain []string, allowEmpty bool) string {
-	switch rapid.IntRange(0, 9).Draw(rt, label+".class") {
+	switch rapid.IntRange(0, 11).Draw(rt, label+".class") {
+	case 10, 11:
+		// Option-like text behind decoration that a transport might strip or
+		// decode before composing the command line (IPv6 brackets, quotes,
+		// white space, percent-encoding, a trailing dot).
+		inner := pick(rt, label+".option", optionLike)
+		if rapid.IntRange(0, 3).Draw(rt, label+".glued") == 0 {
+			inner += pick(rt, label+".tail", []string{"x", "=x", "host", "::1"})
+		}
+		w := rapid.SampledFrom([][2]string{{"[", "]"}, {"[", "]"}, {" ", ""}, {"\t", ""}, {"\"", "\""}, {"'", "'"}, {"", "."}, {"<", ">"}, {"{", "}"}, {"(", ")"}, {"\\", ""}, {"%2D", ""}, {"[", ""}, {"[[", "]]"}}).Draw(rt, label+".wrap")
+		if w[0] == "%2D" {
+			return "%2D" + inner[1:]
+		}
+		return w[0] + inner + w[1]
 	case 0:
 		if allowEmpty {
 			return ""
@@ -93,7 +106,10 @@ func genCase(rt *rapid.T) *Case {
 	if protocol == "docker" {
 		c.Windows = rapid.IntRange(0, 3).Draw(rt, "windows") == 0
 	}
-	user := component(rt, "user", plainUsers, true)
+	user := ""
+	if rapid.IntRange(0, 2).Draw(rt, "user.given") != 0 {
+		user = component(rt, "user", plainUsers, true)
+	}
 	host := component(rt, "host", plainHosts, false)
 	tail := pick(rt, "path", syncPaths)
 	if c.Forwarding {
@@ -186,9 +202,9 @@ func TestRandomURLs(t *testing.T) {
 	if ev.ReplayPath() != "" {
 		t.Skip("replaying")
 	}
-	rec := ev.New(t, prop, "urls-random", "rapid: SSH and Docker endpoints, both kinds, through url.Parse (raw strings) or as URL messages (API route), whose user / host / container are empty, plain, option-like (-l, -oProxyCommand=x, --user, --, -, ...) or contain dashes, spaces and '='; Docker daemon parameters with option-like values; each accepted URL drives the real transport (Command+Run, Copy, agent.Dial; POSIX or Windows container) against recording fake ssh/scp/docker; "+rule)
+	rec := ev.New(t, prop, "urls-random", "rapid: SSH and Docker endpoints, both kinds, through url.Parse (raw strings) or as URL messages (API route), whose user / host / container are empty, plain, option-like (-l, -oProxyCommand=x, --user, --, -, ...), option-like behind brackets / quotes / white space / percent-encoding, or contain dashes, spaces and '='; Docker daemon parameters with option-like values; each accepted URL drives the real transport (Command+Run, Copy, agent.Dial; POSIX or Windows container) against recording fake ssh/scp/docker; "+rule)
 	_, listed := listedKnown()
-	ev.Check(t, rec, 300, 4000, func(rt *rapid.T) {
+	ev.Check(t, rec, 800, 12000, func(rt *rapid.T) {
 		c := genCase(rt)
 		if listed && classOf(c) == ClassLeadingDash {
 			rec.Excluded(ClassLeadingDash)
